@@ -152,6 +152,45 @@ func partsHaveFor(parts []ast.TPart) bool {
 	return false
 }
 
+// drawSplatTail draws `src[*]<steps>` / `src.*<steps>` with 1..4 steps; index steps (full
+// splat only) have keys that are variables or small expressions.
+func drawSplatTail(t *rapid.T, g *gen.EG, sc *gen.Scope) ast.Node {
+	full := rapid.IntRange(0, 3).Draw(t, "full") > 0
+	var src ast.Node = ast.Var{Name: rapid.SampledFrom(sc.Names).Draw(t, "tail_src")}
+	if rapid.IntRange(0, 3).Draw(t, "src_expr") == 0 {
+		src = g.Expr(cty.DynamicPseudoType)
+	}
+	key := func() ast.Node {
+		switch rapid.IntRange(0, 4).Draw(t, "tail_key") {
+		case 0:
+			return ast.Num{Text: "0"}
+		case 1:
+			return ast.Template{Parts: []ast.TPart{ast.TLit{Text: "k"}}}
+		case 2, 3:
+			return ast.Var{Name: rapid.SampledFrom(sc.Names).Draw(t, "key_var")}
+		default:
+			return g.Expr(rapid.SampledFrom([]cty.Type{cty.Number, cty.String}).Draw(t, "key_type"))
+		}
+	}
+	sp := ast.Splat{Src: src, Full: full}
+	lastLegacy := false
+	for i := rapid.IntRange(1, 4).Draw(t, "tail_steps"); i > 0; i-- {
+		k := rapid.IntRange(0, 3).Draw(t, "step_kind")
+		switch {
+		case k == 0 && !lastLegacy:
+			sp.Steps = append(sp.Steps, ast.Step{Kind: ast.StepLegacy, N: rapid.IntRange(0, 1).Draw(t, "legacy_n")})
+			lastLegacy = true
+		case k == 1 && full:
+			sp.Steps = append(sp.Steps, ast.Step{Kind: ast.StepIndex, Key: key()})
+			lastLegacy = false
+		default:
+			sp.Steps = append(sp.Steps, ast.Step{Kind: ast.StepAttr, Name: rapid.SampledFrom([]string{"a", "id", "name", "tags"}).Draw(t, "step_attr")})
+			lastLegacy = false
+		}
+	}
+	return sp
+}
+
 func TestC07_Native(t *testing.T) {
 	hx.Run(t, "C07", "Native", 20000,
 		"native expression/template with nested for expressions, shadowing, splats, template for directives and all object-key forms, in a scope that defines more variables than are used; oracle: (1) reported root names == free variables of the AST (own scoping model), (2) evaluating in the scope restricted to the reported names gives identical value and diagnostics, (3) replacing every unreported variable by a value of another type changes nothing; non-trivial = a binding construct is present and the reported set is a proper subset of the scope; distinct by (AST dump, scope types)",
@@ -180,6 +219,23 @@ func TestC07_Native(t *testing.T) {
 				c.Class("family_template")
 			} else {
 				n := g.Expr(cty.DynamicPseudoType)
+				if rapid.IntRange(0, 5).Draw(t, "splat_tail") == 0 {
+					// the static analysis does not depend on types: a splat with a freely
+					// composed tail (attribute, legacy-index and computed-index steps in any
+					// order, keys that are expressions of their own), possibly inside n
+					tail := drawSplatTail(t, g, sc)
+					switch rapid.IntRange(0, 3).Draw(t, "tail_embed") {
+					case 0:
+						n = tail
+					case 1:
+						n = ast.Tuple{Elems: []ast.Node{n, tail}}
+					case 2:
+						n = ast.For{ValVar: "it", Coll: tail, Val: ast.Tuple{Elems: []ast.Node{ast.Var{Name: "it"}, n}}}
+					default:
+						n = ast.Cond{P: ast.Bool{V: true}, T: tail, F: n}
+					}
+					c.Class("family_splat_tail")
+				}
 				src, _ := render.Expression(n, rchooser{t}, render.Opts{Wild: 1})
 				c.Set("source", src)
 				dump = ast.Dump(n)
